@@ -157,4 +157,5 @@ def run(rep, wd, tier, seed):
 
 
 def replay(rep, wd, payload):
-    print('re-run the full check to reproduce (the fault matrix is enumerated, no seed needed for n <= 4)')
+    import sys
+    core.generic_replay(sys.modules[__name__], rep, wd, payload)
